@@ -494,9 +494,15 @@ static void generate_minimal_hash(Ports &p, Port_Matcher &pm)
     cvec_t args;
 
     bool enump = false;
-    for(unsigned i=0; i<p.ports.size(); ++i)
+    for(unsigned i=0; i<p.ports.size(); ++i) {
         if(strchr(p.ports[i].name, '#'))
             enump = true;
+        //dispatch only hashes the first component of an address, so names
+        //with several components can not be looked up by their hash
+        const char *slash = strchr(p.ports[i].name, '/');
+        if(slash && slash[1] && slash[1] != ':')
+            enump = true;
+    }
     if(enump)
         return;
     for(unsigned i=0; i<p.ports.size(); ++i)
